@@ -45,6 +45,7 @@ type balOp struct {
 	Until   int64    `json:"until,omitempty"`
 	Epoch   int64    `json:"epoch,omitempty"`
 	FromNull bool    `json:"from_null,omitempty"` // pass Null (not an empty byte string) as `from`
+	ToNull   bool    `json:"to_null,omitempty"`   // pass Null as `to` (only in calls that lack the Alphabet witness)
 	Scopes  []int    `json:"scopes,omitempty"` // per signer: 0 Global (default), 1 None (fee-only), 2 CalledByEntry; the first signer is the sender
 	Signers []int    `json:"signers"` // indices into users; -1 = Alphabet account, -2 = committee-majority account, -3 = one committee member
 }
@@ -201,6 +202,13 @@ func nilIfEmpty(x []byte) any {
 	return x
 }
 
+func nullable(b []byte, null bool) any {
+	if null {
+		return nil
+	}
+	return b
+}
+
 // invoke sends one transaction with the op's signers and witness scopes.
 func (b *balEnv) invoke(op balOp, h util.Uint160, method string, args ...any) Result {
 	sg := b.signerList(op.Signers)
@@ -238,13 +246,13 @@ func (b *balEnv) exec(op balOp) balObs {
 			r = b.invoke(op, b.caller, "call", b.balance, "transfer", []any{op.From, op.To, op.Amount, nil})
 		}
 	case "transferX":
-		r = b.invoke(op, b.balance, "transferX", op.From, op.To, op.Amount, op.Details)
+		r = b.invoke(op, b.balance, "transferX", nullable(op.From, op.FromNull), nullable(op.To, op.ToNull), op.Amount, op.Details)
 	case "mint":
-		r = b.invoke(op, b.balance, "mint", op.To, op.Amount, op.Details)
+		r = b.invoke(op, b.balance, "mint", nullable(op.To, op.ToNull), op.Amount, op.Details)
 	case "burn":
-		r = b.invoke(op, b.balance, "burn", op.From, op.Amount, op.Details)
+		r = b.invoke(op, b.balance, "burn", nullable(op.From, op.FromNull), op.Amount, op.Details)
 	case "lock":
-		r = b.invoke(op, b.balance, "lock", op.Details, op.From, op.To, op.Amount, op.Until)
+		r = b.invoke(op, b.balance, "lock", op.Details, nullable(op.From, op.FromNull), nullable(op.To, op.ToNull), op.Amount, op.Until)
 	case "newEpoch":
 		r = b.invoke(op, b.balance, "newEpoch", op.Epoch)
 	case "newEpochNetmap":
@@ -448,7 +456,42 @@ func (g *balGen) alphaSigners() []int {
 	return []int{-1}
 }
 
+// next: one generated op. Calls of the Alphabet-only methods that LACK the Alphabet witness (strangers, the
+// holder itself, the committee majority) also come with malformed addresses — they must be refused whatever
+// the arguments; with the Alphabet witness addresses stay well-formed, as the property's quantifier says.
 func (g *balGen) next(step int) balOp {
+	op := g.next0(step)
+	switch op.Kind {
+	case "transferX", "mint", "burn", "lock":
+	default:
+		return op
+	}
+	if _, alpha := g.b.witnessed(op); alpha || step < 2 {
+		return op
+	}
+	r := g.r
+	if r.Intn(2) == 0 {
+		// signed by the holder (the natural mistake: "owner or Alphabet")
+		for i := 0; i < balNUsers; i++ {
+			if string(g.addr(i)) == string(op.From) {
+				op.Signers = []int{i}
+			}
+		}
+	}
+	switch r.Intn(6) {
+	case 0:
+		op.To, op.ToNull = nil, true
+	case 1:
+		op.To = []byte{}
+	case 2:
+		op.To = g.addr(balIdxEmpty + 1 + r.Intn(2))
+	case 3:
+		op.From, op.FromNull = nil, true
+	}
+	return op
+}
+
+func (g *balGen) next0(step int) balOp {
 	r := g.r
 	det := []byte{byte(r.Intn(3) + 1), byte(step)}
 	w := r.Intn(100)
@@ -661,6 +704,24 @@ func balCorpus(b *balEnv) [][]balOp {
 			{Kind: "mint", To: B, Amount: n(10), Details: []byte{8}, Signers: []int{-1, 1}, Scopes: []int{1, 0}},
 			{Kind: "burn", From: A, Amount: n(10), Details: []byte{7}, Signers: []int{-1}, Scopes: []int{2}},
 		},
+		{ // Alphabet-only methods signed by the holder or a stranger, with Null / empty / short addresses: refused whatever the arguments
+			{Kind: "mint", To: A, Amount: n(1000), Details: []byte{1}, Signers: al},
+			{Kind: "transferX", From: A, ToNull: true, Amount: n(400), Details: []byte{2}, Signers: []int{0}},
+			{Kind: "transferX", From: A, To: []byte{}, Amount: n(400), Details: []byte{2}, Signers: []int{0}},
+			{Kind: "transferX", From: A, To: []byte{1, 2, 3}, Amount: n(400), Details: []byte{2}, Signers: []int{0}},
+			{Kind: "transferX", From: A, To: B, Amount: n(400), Details: []byte{2}, Signers: []int{0}},
+			{Kind: "transferX", From: A, To: B, Amount: n(400), Details: []byte{2}, Signers: []int{1}},
+			{Kind: "transferX", FromNull: true, To: B, Amount: n(400), Details: []byte{2}, Signers: []int{1}},
+			{Kind: "burn", From: A, Amount: n(400), Details: []byte{3}, Signers: []int{0}},
+			{Kind: "burn", FromNull: true, Amount: n(400), Details: []byte{3}, Signers: []int{0}},
+			{Kind: "lock", From: A, ToNull: true, Amount: n(400), Until: 9, Details: []byte{4}, Signers: []int{0}},
+			{Kind: "lock", From: A, To: L, Amount: n(400), Until: 9, Details: []byte{4}, Signers: []int{0}},
+			{Kind: "lock", From: A, To: []byte{}, Amount: n(400), Until: 9, Details: []byte{4}, Signers: []int{0}},
+			{Kind: "mint", ToNull: true, Amount: n(400), Details: []byte{5}, Signers: []int{0}},
+			{Kind: "mint", To: []byte{}, Amount: n(400), Details: []byte{5}, Signers: []int{0}},
+			{Kind: "mint", To: A, Amount: n(400), Details: []byte{5}, Signers: []int{0}},
+			{Kind: "transferX", From: A, To: B, Amount: n(1), Details: []byte{6}, Signers: al},
+		},
 		{ // funds held at contract addresses nobody can witness (the Balance contract itself, Netmap)
 			{Kind: "mint", To: b.balance.BytesBE(), Amount: n(700), Details: []byte{1}, Signers: al},
 			{Kind: "mint", To: b.netmap.BytesBE(), Amount: n(300), Details: []byte{1}, Signers: al},
@@ -721,9 +782,9 @@ func balCorpus(b *balEnv) [][]balOp {
 // balCorpusExtra: number of extra lock addresses corpus history ci needs.
 func balCorpusExtra(ci int) int {
 	switch ci {
-	case 11:
-		return 4
 	case 12:
+		return 4
+	case 13:
 		return 41
 	}
 	// NOTE: keep in step with the position of the two balManyLocks entries in balCorpus
